@@ -323,12 +323,17 @@ def check(run):
                        "the real UpdateEndpoints / UpdateEndpointsMergeableIngress / UpdateEndpointsForVirtualServers / UpdateEndpointsForTransportServers run "
                        "over a recording manager; per backend: its Endpoints entry, the server lines of ITS upstream block in the file and the servers pushed for "
                        "ITS upstream through UpdateServersInPlus / UpdateStreamServersInPlus must be the single-backend resolution in the owner's namespace "
-                       "(res_by_kind counts backends per resource kind).  Dynamic family (n/4 cases + the seeded scenario for each resource kind): a controller built by NewLoadBalancerController over a real "
-                       "Configurator (production templates, recording fake manager); the resource is added and synced, then the cluster changes (targetPort "
-                       "of the Service + slice ports rewritten in place; one slice port number; readiness; addresses; the service-name label; slice "
-                       "deleted / added; service port number) and the change is delivered as watch events to the REAL createServiceHandlers / "
-                       "createEndpointSliceHandlers, the REAL work queue is drained with the REAL lbc.sync, and the `server` lines of the file written last "
-                       "that NGINX actually uses (stand-in: files as of the last reload + successful API calls) for EVERY resource's upstream must be the resolution on the cluster AFTER the events (dyn_by_op counts, per change and shared/single, how many altered the servers).")
+                       "(res_by_kind counts backends per resource kind).  Dynamic family (n/4 cases + the seeded scenarios as fixed cases): a controller built by NewLoadBalancerController over a real "
+                       "Configurator (production templates) over a manager stand-in that IS the NGINX process: it balances over what the files said at the last Reload, "
+                       "overwritten per upstream by every successful NGINX Plus API call since; API failures are injected per upstream; CreateConfig reports like "
+                       "LocalManager whether the file changed.  One to three resources are added and synced: of DIFFERENT kinds (Ingress, VirtualServer, "
+                       "VirtualServerRoute, TransportServer, any order) sharing one Service half of the time, or of the SAME kind on one Service -- identical, or "
+                       "depending on different endpoints (stable / canary sub-selectors, one in cluster-IP mode, other ports of the Service with one slice per port) so "
+                       "that an event changes the file of the first / a middle / the last one only.  Then the cluster changes (targetPort of the Service + slice "
+                       "ports rewritten in place; one slice port number; readiness; addresses; the service-name label; slice deleted / added; service port number; "
+                       "bursts of 3-5 EndpointSlice events that put sync() into batch mode), delivered as watch events to the REAL createServiceHandlers / "
+                       "createEndpointSliceHandlers; the REAL work queue is drained with the REAL lbc.sync.  NGINX OSS and Plus alike: the servers the stand-in RUNS "
+                       "for EVERY resource's upstream must be the resolution on the cluster AFTER the events (dyn_by_op counts, per change and shared/single, how many altered the servers).")
     run.cov["trusted_base"] = TRUSTED
     run.assumptions += ["the correspondence follows the code variant of the tree under test (repairs F40 / F41 / F42 present or not, read off the corpus "
                         "witnesses: model_variant); the specification S does not depend on the variant",
